@@ -19,4 +19,5 @@ for f in t['findings']:
 json.dump(o,open('/verif/known_findings.json','w'),indent=1)
 PY
 git add known_findings.json
+for f in $(git diff --name-only --diff-filter=U | grep "^evidence/"); do git checkout --theirs $f; git add $f; done
 git status --short | grep -E "^(UU|AA|DU|UD) " || true
